@@ -329,11 +329,15 @@ def run(chk):
     _rep.include_rules(chk, r3, _c09, ("C09.R3",), "nothing that can fail runs on the way into a pooled read, outside its swallowing handler (inner clients raise, the pool's clean-up callback only closes)")
     r5 = chk.rule("C07.R5", "Client's read methods, evaluated end to end with ignore_exc set against 17 fault plans each (refused connection, failed send, time-out, close, error / garbage / malformed lines at every reply position, undeserialisable item): never raise, return the miss value")
     n5 = client_fault_rows(prog, r5)
+    from .rules_C05 import size_thresholds
+
+    size_thresholds(prog, r5)
     r5.floor("method x fault plan rows", n5, 90)
     r4 = chk.rule("C07.R4", "still usable: reads are routed through the current rotation, so an evicted server is not contacted again (its repeated failure would raise from the failover bookkeeping even with ignore_exc)")
     from . import rules_C12, report
 
     report.include_rules(chk, r4, rules_C12, ("C12.R2",), "HashClient reads reach only servers the hasher currently has in rotation")
+    report.include_rules(chk, r4, rules_C12, ("C12.R3",), "a multi-key read contacts each server once: a second batch for a server that has just been taken out of rotation fails outside the handler that turns failures into misses")
     chk.assume("exceptions raised by HashClient's own bookkeeping inside the failover handlers are otherwise not decided here (C13)")
     chk.assume("input validation errors (MemcacheIllegalInputError) are not server/network failures and may be raised")
 
